@@ -19,6 +19,10 @@ CUR_TASK: contextvars.ContextVar[int] = contextvars.ContextVar("verif_cur_task")
 TICK = 1.0
 
 
+class OwnerFailed(Exception):
+    """What the block of the context that owns the factory ends with, in some cases."""
+
+
 class FactoryRun:
     def __init__(self, case: dict[str, Any]) -> None:
         self.case = case
@@ -259,6 +263,9 @@ class FactoryRun:
                 owner.add_resource(TYPES[0](step["v"]), f"late{step['v']}")
         await anyio.sleep_until(t0 + case["exit_at"] * TICK)
         self.log("exitBegin")
+        if case.get("exit_exc"):
+            # the owner's block ends with an exception of its own: the tasks still running are waited for all the same
+            raise OwnerFailed()
 
     async def main(self) -> dict[str, Any]:
         import logging
@@ -289,6 +296,8 @@ class FactoryRun:
                 self.log("blockLeft")
             for x in leaves(e):
                 idx = next((n for n, c in enumerate(EXN) if type(x) is c), None)
+                if isinstance(x, OwnerFailed):
+                    continue
                 if idx is None:
                     other = repr(x)
                 else:
